@@ -112,7 +112,9 @@ CHECKS = {
         rule="identity registry fed by the element types' own make/Clone/Drop, balanced against what is reachable through the vectors after every step and after "
              "everything is dropped, over the element / range / clone / lazy families and mixed random histories on three vectors exchanging elements; "
              "by-value multiset accounting for types without drop glue, by-count for zero-sized; non-trivial = case moved, removed, cloned or destroyed an element",
-        runs=[dict(mode="rel"), dict(mode="dbg", args=["--sub", "light"]), dict(mode="opt", tiers=("thorough",))],
+        runs=[dict(mode="rel"), dict(mode="dbg", args=["--sub", "light"]), dict(mode="asan", args=["--sub", "light"], tiers=("quick",)),
+              dict(mode="opt", tiers=("thorough",)), dict(mode="asan", tiers=("thorough",)), dict(mode="miri", args=["--quota", "25"], tiers=("thorough",), timeout=7200),
+              dict(mode="valgrind", args=["--quota", "60"], tiers=("thorough",), timeout=7200)],
         floors={"any": {"evaluations": 20000, "drop_events": 10000, "clone_events": 1000}},
         assumptions=BEHAVIOUR_ASSUMPTIONS,
     ),
@@ -121,7 +123,7 @@ CHECKS = {
         rule="clone / clone_empty / clone_empty_in(Heap|Guard|Stack|StackN) from every abstract state on every Cloneable configuration, followed by every single "
              "element-wise operation on the original and on the clone; monitors: Vec model of both vectors, Clone-event log (each source id exactly once), storage base "
              "pointers pairwise distinct; non-trivial = every case",
-        runs=[dict(mode="rel"), dict(mode="dbg", args=["--sub", "light"])],
+        runs=[dict(mode="rel"), dict(mode="dbg", args=["--sub", "light"]), dict(mode="miri", args=["--quota", "60"], tiers=("thorough",), timeout=7200)],
         floors={"any": {"evaluations": 5000, "clone_events": 5000}},
         assumptions=BEHAVIOUR_ASSUMPTIONS,
     ),
@@ -130,7 +132,7 @@ CHECKS = {
         rule="lazy clones of every cloneable source kind (ElementRef, ElementMut, Pop, Remove, SwapRemove, drained Element) x chain depth 1..3 x 0..3 consumptions "
              "(push, insert, splice, downcast, dropped unused) from every state; monitors: Clone/Drop event counts around creation/copy/drop of the lazy clone, "
              "exact Clone-event multiset per consumption, registry balance; non-trivial = every case",
-        runs=[dict(mode="rel"), dict(mode="dbg", args=["--sub", "light"])],
+        runs=[dict(mode="rel"), dict(mode="dbg", args=["--sub", "light"]), dict(mode="miri", args=["--quota", "60"], tiers=("thorough",), timeout=7200)],
         floors={"any": {"evaluations": 5000, "clone_events": 5000}},
         assumptions=BEHAVIOUR_ASSUMPTIONS,
     ),
@@ -158,7 +160,8 @@ CHECKS = {
         rule="mem::forget of the pop/remove/swap_remove handle, of a drain/splice iterator after every (f front, b back) consumption prefix, and of a yielded item, from every state "
              "and sub-range, followed by further operations and drop; monitors: prefix before the affected index unchanged, what follows drawn from the former elements, registry "
              "(no duplicate, no dead element visible, no double destroy), Vec model re-synchronised to the visible contents; non-trivial = every case",
-        runs=[dict(mode="rel"), dict(mode="dbg", args=["--sub", "light"])],
+        runs=[dict(mode="rel"), dict(mode="dbg", args=["--sub", "light"]),
+              dict(mode="asan-noleak", args=["--sub", "light"], tiers=("thorough",)), dict(mode="miri-noleak", args=["--quota", "60"], tiers=("thorough",), timeout=7200)],
         floors={"any": {"evaluations": 20000}},
         assumptions=BEHAVIOUR_ASSUMPTIONS,
     ),
@@ -167,7 +170,7 @@ CHECKS = {
         rule="get/at/get_mut/at_mut and typed accessors at every index 0..=len+1 with handle reports (value_typeid, size, as_bytes address/length) checked; writes and swaps through 15 view/handle kinds "
              "read back through the typed slice, erased get, iter and the byte view after every step; unconsumed removal handles and drained elements inspected/mutated/swapped before every fin; "
              "non-trivial = every case",
-        runs=[dict(mode="rel"), dict(mode="dbg", args=["--sub", "light"])],
+        runs=[dict(mode="rel"), dict(mode="dbg", args=["--sub", "light"]), dict(mode="miri", args=["--quota", "60"], tiers=("thorough",), timeout=7200)],
         floors={"any": {"evaluations": 20000}},
         assumptions=BEHAVIOUR_ASSUMPTIONS,
     ),
@@ -175,7 +178,8 @@ CHECKS = {
         level="exploration",
         rule="into_raw_parts/from_raw_parts (1..3 times) from every state on every heap configuration and constraint set, inserted before every element-wise operation and sampled range operations, and inside random histories; "
              "monitors: every RawParts field (and its field-wise clone) against the live vector, Drop/Clone and allocator event counters across the round trip, base pointer/capacity after rebuilding, Vec model afterwards, registry and allocator balance at the end",
-        runs=[dict(mode="rel"), dict(mode="dbg", args=["--sub", "light"])],
+        runs=[dict(mode="rel"), dict(mode="dbg", args=["--sub", "light"]), dict(mode="asan", args=["--sub", "light"], tiers=("thorough",)),
+              dict(mode="miri", args=["--quota", "40"], tiers=("thorough",), timeout=7200)],
         floors={"any": {"evaluations": 10000, "raw_round_trips_checked": 10000}},
         assumptions=BEHAVIOUR_ASSUMPTIONS,
     ),
@@ -203,7 +207,8 @@ CHECKS = {
         rule="element / range / clone / lazy families and random histories on Stack<SIZE> and StackN<N,SIZE> configurations from every state up to capacity (incl. len == capacity-1 and == capacity) with results of length <= cap, == cap and == cap+1; "
              "monitors: Vec model with a capacity bound (push/insert beyond capacity must panic and change nothing), fixed capacity() value, per-thread allocation counter of the instrumented global allocator across every library call; "
              "plus a SIZE/N grid of instantiations for capacity() and construction panics",
-        runs=[dict(mode="rel"), dict(mode="dbg", args=["--sub", "light"])],
+        runs=[dict(mode="rel"), dict(mode="dbg", args=["--sub", "light"]), dict(mode="miri-stack", args=["--quota", "2"], tiers=("quick",), timeout=1500),
+              dict(mode="miri-stack", args=["--quota", "25"], tiers=("thorough",), timeout=7200)],
         floors={"any": {"evaluations": 20000, "stack_ops_watched": 20000, "rejections": 1000}},
         assumptions=BEHAVIOUR_ASSUMPTIONS,
     ),
@@ -222,7 +227,8 @@ CHECKS = {
         rule="for every (state, operation instance) of the element / range / clone / lazy families up to the bound: one fault-free run counts the user-code invocations N inside the operation (element Drop, element Clone, replacement-iterator next), "
              "then for each k=1..N the k-th invocation panics (caught by catch_unwind); plus replacement iterators whose len() is off by -2..=+2; after each fault: registry (no double destroy, no dead or duplicated element visible), canaries, guard/quarantine scans, "
              "and a follow-up sequence (push, insert, iterate, pop, remove, clone, clear, drop) against a model re-synchronised to the visible contents; leaks are counted, not flagged; non-trivial = the injected fault actually fired; distinct = distinct (case, k) descriptors",
-        runs=[dict(mode="rel"), dict(mode="dbg", args=["--sub", "light"])],
+        runs=[dict(mode="rel"), dict(mode="dbg", args=["--sub", "light"]),
+              dict(mode="asan-noleak", args=["--sub", "light"], tiers=("thorough",)), dict(mode="miri-noleak", args=["--quota", "25"], tiers=("thorough",), timeout=7200)],
         floors={"any": {"evaluations": 20000, "faults_injected": 20000, "faults_in_drop": 2000, "faults_in_clone": 500, "faults_in_repl-next": 500, "lying_iterators": 1000}},
         assumptions=BEHAVIOUR_ASSUMPTIONS + ["exactly one injected panic per execution (a second panic during unwinding aborts by language rule)"],
     ),
@@ -241,7 +247,8 @@ CHECKS = {
         rule="every (len, capacity) state up to the bound x every layout (size 0/1/2/3/8/12/16/24/32/64/160, alignment 1..64) x Heap, instrumented backend, Stack<2048>, StackN<8,2048> (+ small odd sizes), the vector written in place at every admissible "
              "offset (step align_of::<AnyVec>) of a 128-aligned arena for the inline backends; monitors: storage pointer modulo alignment (also empty), address/length arithmetic of as_bytes/as_bytes_mut/spare_bytes_mut/spare_capacity_mut/typed slices, "
              "byte equality of the byte view and the typed slice, values written into spare capacity + set_len become the new tail; at a misaligned placement no element is accessed; non-trivial = every case",
-        runs=[dict(mode="rel", shards=8), dict(mode="dbg", shards=8, args=["--sub", "light"])],
+        runs=[dict(mode="rel", shards=8), dict(mode="dbg", shards=8, args=["--sub", "light"]),
+              dict(mode="miri-stack", args=["--quota", "8"], tiers=("thorough",), timeout=7200)],
         floors={"any": {"evaluations": 10000, "placements_checked": 10000}},
         assumptions=BEHAVIOUR_ASSUMPTIONS,
     ),
